@@ -70,7 +70,7 @@ func runC01(r *oblig.Report) {
 func runC02(r *oblig.Report) {
 	r.Explanation = "Decides structural necessary conditions of C02 on the DSL printer: (R5.1) the text of a relation is returned only under occurrences()==0 or occurrences()==1 && isFirstPosition(own rewrite); every direct-assignment branch counts, with one validator handed down; " +
 		"(C02.1b) the position predicate recurses exactly into difference base / first child of union / first child of intersection; (R5.5) every failure of the printer is one of the two documented constructors (nesting error, condition-name mismatch, missing generic type); " +
-		"(C02.4) hoisting returns its argument or a fresh list x[p] ++ x[:p] ++ x[p+1:]; operand loops run to completion; (C02.6) every part of a type restriction is considered on every path; (R1.3) enum/literal tables; (R1.1) IsRelationAssignable handles all operator variants; the printer does not write its input."
+		"(C02.4) hoisting returns its argument or a fresh list x[p] ++ x[:p] ++ x[p+1:]; operand loops run to completion; (C02.6) every part of a type restriction is considered on every path; (R1.3) enum/literal tables; (R1.1) IsRelationAssignable handles all operator variants; (C01.5) a condition's expression is printed as stored; the printer does not write its input."
 	r.NotCovered = []string{"correctness of isFirstPosition as a predicate on all trees beyond its recursion targets", "re-parse equality of the produced DSL"}
 	r.Assumptions = []string{"the grammar admits a direct assignment only as first operand (decided in C09 G2)"}
 	c := NewCtx(r)
@@ -98,6 +98,9 @@ func runC02(r *oblig.Report) {
 	e5path.NoEmptySuccess(c.P, r, "C02.7", fs)
 	e5path.CompleteIteration(c.P, r, "R1.6", []string{"transformer.parseUnion", "transformer.parseIntersection", "transformer.parseTypeRestrictions"})
 	e5path.AllPartsPrinted(c.P, r, "C02.6")
+	// "loses nothing": the condition expression is printed as it is stored (shared with C01)
+	r.Rule("C01.5", "instance-table", "condition expression stored and printed verbatim modulo surrounding whitespace", 2)
+	e5path.ExpressionVerbatim(c.P, r, "C01.5")
 	e1variants.EnumTables(c.P, r, "R1.3", w.LexerG, true)
 	e1variants.Consumers(c.P, r, "R1.1", append(append([]e1variants.Consumer{}, printerConsumers...),
 		e1variants.Consumer{Pkg: "utils", Func: "IsRelationAssignable", Message: "Userset", Required: []string{"This", "Union", "Intersection", "Difference"}}))
@@ -128,6 +131,8 @@ func runC03(r *oblig.Report) {
 	e1variants.GrammarCoverage(c.P, r, "R1.5", w.ParserG)
 	e5path.RewriteMoves(c.P, r, "C03.3", fs)
 	e5path.StackDiscipline(c.P, r, "C03.4", fs)
+	r.Rule("C03.5", "path-enumeration", "ParseExpression builds an operator node only around two or more operands; a single operand is handed back as it is (redundant parentheses change nothing)", 1)
+	e5path.SingleOperandUnwrapped(c.P, r, "C03.5")
 	w.LayoutVocabulary(r, "R8.8")
 	w.LayoutExemplars(r, "R8.9")
 }
